@@ -296,6 +296,7 @@ INLINE_NOT_DRIVEN = [
 E2E_DRIVERS = [
     ("internal/protocols/mpegts", "vC24FromStream(t, out, r, n)"),
     ("internal/recorder", "vC24RecorderTS(t, out, r, n)"),
+    ("internal/protocols/rtmp", "vC24RtmpFromStream(t, out, r, n)"),
 ]
 
 
@@ -312,7 +313,7 @@ def _call_table_diff(calls):
             rows.append(tuple(x.replace('""', '"') for x in m.groups()[:5]) + (m.group(6),))
     cur = [(c["File"] + " " + c["Func"], c["Callee"], c["Value"], c["From"], c["To"]) for c in calls]
     notes = ["call-site inventory: %d calls of scaling helpers in the sources, %d rows in Model/C24_CallSites.v (%s)" % (
-        len(cur), len(rows), ", ".join("%s %d" % (k, sum(1 for r in rows if r[5].startswith(k))) for k in ("QVar", "(QFrame", "QDiff", "QExpr")))]
+        len(cur), len(rows), ", ".join("%s %d" % (k, sum(1 for r in rows if r[5].startswith(k))) for k in ("QVar", "(QFrame", "QAccum", "QDiff", "QExpr")))]
     a = ["%s | %s(%s) | %s -> %s" % r[:5] for r in rows]
     b = ["%s | %s(%s) | %s -> %s" % r for r in cur]
     for d in difflib.unified_diff(a, b, "model table", "sources", n=0, lineterm=""):
